@@ -794,6 +794,9 @@ class Analysis:
             return st
         if k == "un" and c.get("op") == "!":
             return self.refine(st, c["e"], not truth)
+        if k == "un" and c.get("op") in ("++", "--") and not c.get("post"):
+            # value of ++x is the new x (already stored by the transfer)
+            return self.refine_lv(st, c["e"], truth)
         if k == "bin":
             op = c["op"]
             if op == "&&":
